@@ -342,15 +342,15 @@ Definition tri_nonempty (t : tri) : option (list (Z * Z * Z)) :=
   match t with TSome (x :: l) => Some (x :: l) | _ => None end.
 
 (* one fragment of refine_fragments: returns the output fragments and the new group count *)
-Definition refine_one (ct : chartab) (o : ropts) (e : str) (n_groups : Z) (v : vfrag) (a : acc) : list frag * Z :=
+Definition refine_one (ct : chartab) (full_esc : bool) (max_punc : Z) (e : str) (n_groups : Z) (v : vfrag) (a : acc) : list frag * Z :=
   let c := vf_code v in
   let single m M re := ([{| f_re := re; f_min := m; f_max := M; f_fixed := true |}], n_groups) in
   let plain re := ([{| f_re := re; f_min := vf_min v; f_max := vf_max v; f_fixed := false |}], n_groups) in
   match a_strings a with
-  | [s] => single 1 (Some 1) (escape (o_full_escape o) s)
+  | [s] => single 1 (Some 1) (escape full_esc s)
   | _ =>
     match a_chars a with
-    | [ch1] => single (vf_min v) (vf_max v) (escape (o_full_escape o) [ch1])
+    | [ch1] => single (vf_min v) (vf_max v) (escape full_esc [ch1])
     | _ =>
       if Z.eqb c cUC then
         match tri_nonempty (a_c a) with
@@ -369,16 +369,16 @@ Definition refine_one (ct : chartab) (o : ropts) (e : str) (n_groups : Z) (v : v
           | None => general
           end
         end
-      else if Z.eqb c cP && Z.leb (Z.of_nat (List.length (a_chars a))) (z_max_punc_in_group o) then
+      else if Z.eqb c cP && Z.leb (Z.of_nat (List.length (a_chars a))) max_punc then
         single (vf_min v) (vf_max v) (escaped_bracket false (a_chars a))
       else plain [c]
     end
   end.
 
-Fixpoint refine_all (ct : chartab) (o : ropts) (e : str) (n_groups : Z) (vs : list vfrag) (accs : list acc) : list frag :=
+Fixpoint refine_all (ct : chartab) (full_esc : bool) (max_punc : Z) (e : str) (n_groups : Z) (vs : list vfrag) (accs : list acc) : list frag :=
   match vs, accs with
   | v :: vs', a :: accs' =>
-    let '(fs, n') := refine_one ct o e n_groups v a in fs ++ refine_all ct o e n' vs' accs'
+    let '(fs, n') := refine_one ct full_esc max_punc e n_groups v a in fs ++ refine_all ct full_esc max_punc e n' vs' accs'
   | _, _ => []
   end.
 
@@ -408,7 +408,7 @@ Definition refine_vrle (ct : chartab) (o : ropts) (e : str) (stripped : bool) (g
   let step accs gs := zip_with (fun va g => acc_step ct e (o_vlf o) (z_max_strings_in_group o) (vf_code (fst va)) (snd va) g)
                                (combine vrle accs) gs in
   let accs := fold_left step groups (map (fun _ => acc0) vrle) in
-  Ok (refine_all ct o e (Z.of_nat (List.length vrle)) vrle accs).
+  Ok (refine_all ct (o_full_escape o) (z_max_punc_in_group o) e (Z.of_nat (List.length vrle)) vrle accs).
 
 Definition len_leb {T} (a b : list T) : bool := Nat.leb (List.length a) (List.length b).
 
